@@ -3,6 +3,7 @@ package main
 import (
 	"fmt"
 	"go/types"
+	"sort"
 	"strings"
 
 	"golang.org/x/tools/go/ssa"
@@ -10,7 +11,7 @@ import (
 
 func init() {
 	register("C15", propMeta{
-		Explanation: "E-GUARD + E-LOCK x E-CHAN + E-PANIC on client/lib. O-1 capacity gate: in Collect the rendezvous (Tongue.Catch) is reachable only through the false edge of count >= max, with collectLock held continuously from the count to the insertion into activePeers, which has no other inserter; the hand-over channel's capacity is the maximum. O-2: Pop returns a peer only through the false edge of Closed() on that very peer. O-3 close-once: every close(ch) in client/lib is inside a sync.Once.Do closure or is a verified table row; O-3b no send can race with a close: for every channel that is both closed and sent on, one mutex is held at the close and at every send. O-4: while collectLock is held every channel operation is polling or is a select with a case on the melt channel (End needs the lock). O-5 shutdown reaches every loop: connectLoop blocks only in a select with a Melted() case that returns; Collect tests melt first under the lock; End closes melt before taking the lock and then closes every peer it holds; SnowflakeConn.Close reaches End, the packet conn, the session and the stream on all paths; the staleness loop selects on the peer's closed channel. O-6 a failed attempt cannot terminate the process: from Collect no reachable repository code contains an undischarged panic/Fatal/Exit/assertion, pointer results are used only behind their err == nil edge, and a field that a failing method may leave nil is not dereferenced before that method's error is tested. Each clause is a necessary condition: e.g. an unconditional send under collectLock makes Close hang once spare peers went stale. Added after the second seeding round: O-6d every construction of an event type whose String() calls Error() on a field without a nil test supplies a value that is non-nil at the construction site (fresh error, behind its != nil edge, or the argument of an error callback). The melt test and the hand-over select may live in helpers of Collect (boolean-helper summaries, entry locksets). Added after the third seeding round: the closed mark precedes the teardown steps in WebRTCPeer.Close; the rendezvous transport keeps ResponseHeaderTimeout (borrowed from C01); a vanished Count() use in the capacity test is a violation. Added after the fourth seeding round: every peer caught by Collect is inserted into activePeers or closed on every path; O-2b the data channel's OnClose callback reaches WebRTCPeer.Close; a close inside a function whose only call site is a Once.Do body counts as close-once.",
+		Explanation: "E-GUARD + E-LOCK x E-CHAN + E-PANIC on client/lib. O-1 capacity gate: in Collect the rendezvous (Tongue.Catch) is reachable only through the false edge of count >= max, with collectLock held continuously from the count to the insertion into activePeers, which has no other inserter; the hand-over channel's capacity is the maximum. O-2: Pop returns a peer only through the false edge of Closed() on that very peer. O-3 close-once: every close(ch) in client/lib is inside a sync.Once.Do closure or is a verified table row; O-3b no send can race with a close: for every channel that is both closed and sent on, one mutex is held at the close and at every send. O-4: while collectLock is held every channel operation is polling or is a select with a case on the melt channel (End needs the lock). O-5 shutdown reaches every loop: connectLoop blocks only in a select with a Melted() case that returns; Collect tests melt first under the lock; End closes melt before taking the lock and then closes every peer it holds; SnowflakeConn.Close reaches End, the packet conn, the session and the stream on all paths; the staleness loop selects on the peer's closed channel. O-6 a failed attempt cannot terminate the process: from Collect no reachable repository code contains an undischarged panic/Fatal/Exit/assertion, pointer results are used only behind their err == nil edge, and a field that a failing method may leave nil is not dereferenced before that method's error is tested. Each clause is a necessary condition: e.g. an unconditional send under collectLock makes Close hang once spare peers went stale. Added after the second seeding round: O-6d every construction of an event type whose String() calls Error() on a field without a nil test supplies a value that is non-nil at the construction site (fresh error, behind its != nil edge, or the argument of an error callback). The melt test and the hand-over select may live in helpers of Collect (boolean-helper summaries, entry locksets). Added after the third seeding round: the closed mark precedes the teardown steps in WebRTCPeer.Close; the rendezvous transport keeps ResponseHeaderTimeout (borrowed from C01); a vanished Count() use in the capacity test is a violation. Added after the fourth seeding round: every peer caught by Collect is inserted into activePeers or closed on every path; O-2b the data channel's OnClose callback reaches WebRTCPeer.Close; a close inside a function whose only call site is a Once.Do body counts as close-once. Added after the fifth seeding round: O-4b BrokerChannel.lock is not held across RendezvousMethod.Exchange; O-7/C20 goroutine bodies of the client write only state with a protection row (one connection's SOCKS arguments do not reach the next); Count() may be written out as purgeClosedPeers() plus activePeers.Len().",
 		NotDecided:  "bounded time of Close, pion callback behaviour after Close, the TOCTOU between Closed() in Pop and first use, panics inside third-party code.",
 		Assumptions: []string{"pion fires OnOpen at most once per data channel (table row)", "crypto/rand failure is not a rendezvous failure (two panic rows)", "lock identity is (type, field)"},
 	}, runC15)
@@ -47,6 +48,27 @@ func runC15(c *Ctx) {
 			count = cc
 		case n == "(*container/list.List).PushBack":
 			pushBack = ci
+		}
+	}
+	if count == nil {
+		// Count() written out at the gate: activePeers.Len() taken after purgeClosedPeers()
+		var purge, ln *ssa.Call
+		for _, ci := range callsIn(collect) {
+			cc, _ := ci.(*ssa.Call)
+			if cc == nil {
+				continue
+			}
+			switch calleeName(ci) {
+			case "(*client/lib.Peers).purgeClosedPeers":
+				purge = cc
+			case "(*container/list.List).Len":
+				if _, f, okf := fieldLoad(cc.Call.Args[0]); okf && f.Name() == "activePeers" {
+					ln = cc
+				}
+			}
+		}
+		if purge != nil && ln != nil && precedes(purge, ln) {
+			count = ln
 		}
 	}
 	if count == nil && catch != nil && getMax != nil {
@@ -213,6 +235,32 @@ func runC15(c *Ctx) {
 			if n == 0 {
 				c.viol(ruleC, "the data channel's OnClose callback closes the peer", p.Pos(prep.Pos()), "no OnClose callback is registered on the data channel: a remote close goes unnoticed")
 			}
+		}
+	}
+
+	// each SOCKS connection is configured by its own arguments only (C20's obligation on goroutine bodies: a
+	// handler that writes into a configuration shared with later handlers lets one connection's max, url or ice
+	// settings govern the next)
+	c.prefix = "O-7/C20:"
+	c.checkGoroutineFieldWrites("O-6 goroutine bodies modify only state with a protection row", p.FnsIn("client", "client/lib"))
+	c.prefix = ""
+
+	// the mutex of the broker channel guards the NAT type only: it is not held across the exchange with the broker
+	// (all connections of a Transport share the channel; Close of one would wait for the others' rendezvous)
+	{
+		ruleL := "O-4b the rendezvous is not serialised by the NAT-type lock"
+		n := 0
+		for _, fn := range cl {
+			for _, ci := range callsIn(fn) {
+				if calleeName(ci) != "(client/lib.RendezvousMethod).Exchange" {
+					continue
+				}
+				n++
+				c.check(le.Held(ci, "BrokerChannel.lock") == heldNone, ruleL, p.FnName(fn)+" exchanges with the broker without holding BrokerChannel.lock", p.instrPos(ci), "", "BrokerChannel.lock is held across the broker round trip: rendezvous attempts of all connections sharing the channel run one after the other, and closing a connection waits for them")
+			}
+		}
+		if n == 0 {
+			c.undecided(ruleL, "RendezvousMethod.Exchange call", "-", "none found in client/lib")
 		}
 	}
 
@@ -385,6 +433,74 @@ func onceClosure(p *Prog, fn *ssa.Function) bool {
 		}
 	}
 	return true
+}
+
+// checkNoSendRacesClose: for every channel class that is both closed and sent on
+// in fns, one mutex is held at the close and at every send. A send that can run
+// concurrently with the close panics ("send on closed channel") and is a data
+// race; a receive is not (it observes the close).
+func (c *Ctx) checkNoSendRacesClose(rule string, fns []*ssa.Function) {
+	p := c.P
+	le := p.Locks()
+	type clsOps struct{ closes, sends []chanOp }
+	classes := map[string]*clsOps{}
+	for _, fn := range fns {
+		for _, op := range chanOpsIn(p, fn) {
+			if op.Dir != chClose && op.Dir != chSend {
+				continue
+			}
+			if strings.HasPrefix(op.Class, "local:") || strings.HasPrefix(op.Class, "param:") || strings.HasPrefix(op.Class, "call:") || strings.HasPrefix(op.Class, "captured:") || op.Class == "?" || op.Class == "phi" || op.Class == "extract" {
+				continue
+			}
+			co := classes[op.Class]
+			if co == nil {
+				co = &clsOps{}
+				classes[op.Class] = co
+			}
+			if op.Dir == chSend {
+				co.sends = append(co.sends, op)
+			} else {
+				co.closes = append(co.closes, op)
+			}
+		}
+	}
+	n := 0
+	for _, cls := range sortedClassKeys2(classes) {
+		co := classes[cls]
+		if len(co.closes) == 0 || len(co.sends) == 0 {
+			continue
+		}
+		for _, cop := range co.closes {
+			for _, sop := range co.sends {
+				if cop.Fn == sop.Fn {
+					continue // one goroutine: the close and the send are alternatives or in sequence, not concurrent
+				}
+				n++
+				common := ""
+				if st, ok := le.at[cop.Instr]; ok && !st.top {
+					for k := range st.m {
+						if le.Held(cop.Instr, k) != heldNone && le.Held(sop.Instr, k) != heldNone {
+							common = k
+						}
+					}
+				}
+				c.check(common != "", rule, fmt.Sprintf("close of %s in %s vs send in %s", cls, p.FnName(cop.Fn), p.FnName(sop.Fn)), p.instrPos(sop.Instr),
+					"both under "+common, "no mutex is held at both the close and the send: the send can hit the closed channel (panic: send on closed channel) and races with the close")
+			}
+		}
+	}
+	if n == 0 {
+		c.okTrivial(rule, "channels that are both closed and sent on", "-", "none in the analysed functions")
+	}
+}
+
+func sortedClassKeys2[T any](m map[string]T) []string {
+	var out []string
+	for k := range m {
+		out = append(out, k)
+	}
+	sort.Strings(out)
+	return out
 }
 
 // runsOnlyUnderOnce: fn is a sync.Once.Do closure, or an unexported function
